@@ -853,9 +853,12 @@ fn main() {
          3 payloads, 3 hash fields, 3 expiries, G/PN counters and G/OR sets through their mutators, gossip (Sync) and delayed delivery of \
          earlier snapshots (Deliver); every distinct value a replica held for key 'k' forms the pool and <= 8 triples are drawn from it, \
          optionally with one operand replaced by the merge of two pool values (gen_triples), or ALL pairs/triples of the pool for ALL op \
-         words of a fixed length over an 18-symbol (2 replicas) / 30-symbol (3 replicas) alphabet (enum_worlds2 / enum_worlds3). \
-         non-trivial = some drawn pair differs in the peer view and was held by different replicas; distinct by the operands' peer views \
-         (gen_triples) / by op word (enum_worlds*)",
+         words of a fixed length over an 18-symbol (2 replicas) / 30-symbol (3 replicas) alphabet (enum_worlds2 / enum_worlds3); \
+         shard_fold delivers 1-5 pool values / fresh with_crdt values through ShardReplicaState::apply_remote_delta to two fresh replicas \
+         (ids 1..=5) in two orders and compares get_replicated with the fold of merge after every step (the enumerations do the same for \
+         every value and ordered pair, receiver ids 1..=4). \
+         non-trivial = some drawn pair differs in the peer view and was held by different replicas (shard_fold: >= 2 distinct values or a \
+         counter/set delivered); distinct by the operands' peer views (gen_triples, shard_fold) / by op word (enum_worlds*)",
         &args,
     );
     s.assume("values compared through vcore::proj::peer_view (serde image of ReplicatedValue with hash sets/maps canonically ordered)");
